@@ -58,7 +58,36 @@ type fnScan struct {
 	fieldsUsed map[string]bool
 	fieldsMut  map[string]bool
 	logs       []string
-	needZero   bool
+	zeros      []string // type parameters whose zero value is needed, first-use order
+}
+
+func (s *fnScan) addZero(names ...string) {
+	for _, n := range names {
+		dup := false
+		for _, z := range s.zeros {
+			if z == n {
+				dup = true
+			}
+		}
+		if !dup {
+			s.zeros = append(s.zeros, n)
+		}
+	}
+}
+
+// zeroNeeds: the type parameters whose zero values the zero value of t is built from.
+func zeroNeeds(t *fnType) []string {
+	switch t.k {
+	case "elem":
+		return []string{t.name}
+	case "struct":
+		var ns []string
+		for _, ft := range structFieldTypes(t) {
+			ns = append(ns, zeroNeeds(ft)...)
+		}
+		return ns
+	}
+	return nil
 }
 
 func (s *fnScan) addLog(n string) {
@@ -105,13 +134,25 @@ func (c *fnCtx) function() {
 				}
 			}
 		}
-		if strings.Join(tps, ",") != strings.Join(targs, ",") {
+		if len(tps) != len(targs) {
 			c.lostAt(fd, "receiver type arguments %v (the struct declares %v)", targs, tps)
 		}
-		c.typeParams(ts.TypeParams)
+		// the method may rename the type parameters (func (c *Cache[K, _]) ...): the generated
+		// code uses the method's names (the struct's for _); the struct's names stay known for
+		// the types of the fields
+		c.typeParamsAs(ts.TypeParams, targs, fd)
 		fieldNames, fieldTypes = structFields(ts.Type.(*ast.StructType))
 	}
 	c.typeParams(fd.Type.TypeParams)
+	c.body = fd.Body
+	if rest, ok := c.mutexPrologue(fd, fieldTypes); ok {
+		c.body = &ast.BlockStmt{Lbrace: fd.Body.Lbrace, List: rest, Rbrace: fd.Body.Rbrace}
+	}
+	for _, f := range fieldNames {
+		if o := c.objectField(recvType, f, fieldTypes[f]); o != nil {
+			c.objs[f] = o
+		}
+	}
 
 	// ---- which parameters are function values called for effect only (logged)
 	paramFuncNoRes := map[string]bool{}
@@ -134,6 +175,9 @@ func (c *fnCtx) function() {
 	var needExtras [][2]string
 	isRecvIdent := func(e ast.Expr) bool {
 		id, ok := e.(*ast.Ident)
+		if ok && fn.recvObj != nil {
+			return id.Obj == fn.recvObj
+		}
 		return ok && fn.recvVar != "" && id.Name == fn.recvVar && id.Obj != nil && id.Obj.Decl == fd.Recv.List[0]
 	}
 	var rootField func(e ast.Expr) string
@@ -147,10 +191,18 @@ func (c *fnCtx) function() {
 			if isRecvIdent(v.X) {
 				return v.Sel.Name
 			}
+			return rootField(v.X) // c.f.g = e: a field of a struct-valued field
 		}
 		return ""
 	}
-	ast.Inspect(fd.Body, func(n ast.Node) bool {
+	mapKeyExtra := func(t ast.Expr) {
+		if mt, ok := t.(*ast.MapType); ok {
+			if kt := c.goType(mt.Key); kt.k == "elem" {
+				needExtras = append(needExtras, [2]string{"eqb:" + kt.name, "eqb_" + kt.name})
+			}
+		}
+	}
+	ast.Inspect(c.body, func(n ast.Node) bool {
 		switch v := n.(type) {
 		case *ast.FuncLit:
 			c.lostAt(v, "function literal")
@@ -171,13 +223,34 @@ func (c *fnCtx) function() {
 			}
 		case *ast.SelectorExpr:
 			if isRecvIdent(v.X) {
-				if _, isField := fieldTypes[v.Sel.Name]; isField {
+				if ft, isField := fieldTypes[v.Sel.Name]; isField {
+					if isMutexType(ft) {
+						c.lostAt(v, "use of the mutex %s outside the canonical prologue (%s.Lock(); defer %s.Unlock() as the first two statements)", src(v), src(v), src(v))
+					}
 					if !fieldFuncNoRes[v.Sel.Name] {
 						sc.fieldsUsed[v.Sel.Name] = true
 					}
+					mapKeyExtra(ft)
 				}
 			}
 		case *ast.CallExpr:
+			if o, m := c.objCallSyntax(v, isRecvIdent); o != nil {
+				// a method of an object field: the object (and the fields its callbacks write) changes
+				needExtras = append(needExtras, [2]string{"obj:" + o.field + "." + m, o.field + "_" + m})
+				sc.fieldsUsed[o.field], sc.fieldsMut[o.field] = true, true
+				for _, w := range o.writes {
+					sc.fieldsUsed[w], sc.fieldsMut[w] = true, true
+					mapKeyExtra(fieldTypes[w])
+				}
+			}
+			if id, ok := v.Fun.(*ast.Ident); ok && id.Name == "delete" && id.Obj == nil && len(v.Args) == 2 {
+				if f := rootField(v.Args[0]); f != "" {
+					sc.fieldsMut[f] = true
+				}
+			}
+			if id, ok := v.Fun.(*ast.Ident); ok && id.Name == "make" && id.Obj == nil && len(v.Args) >= 1 {
+				mapKeyExtra(v.Args[0])
+			}
 			if k := c.externKey(v); k != "" {
 				needExtras = append(needExtras, [2]string{k, strings.ReplaceAll(k, ".", "_")})
 				for _, a := range v.Args {
@@ -201,9 +274,7 @@ func (c *fnCtx) function() {
 				for _, l := range cal.logs {
 					sc.addLog(l)
 				}
-				if cal.needZero {
-					sc.needZero = true
-				}
+				sc.addZero(cal.zeroTypes...)
 			} else if sel, ok := v.Fun.(*ast.SelectorExpr); ok && isRecvIdent(sel.X) && fieldFuncNoRes[sel.Sel.Name] {
 				sc.addLog(sel.Sel.Name)
 			} else if id, ok := v.Fun.(*ast.Ident); ok && paramFuncNoRes[id.Name] && id.Obj != nil && id.Obj.Kind == ast.Var {
@@ -212,36 +283,39 @@ func (c *fnCtx) function() {
 				if lit, ok := v.Args[1].(*ast.BasicLit); !ok || lit.Value != "0" {
 					if at, ok := v.Args[0].(*ast.ArrayType); ok {
 						if t := c.goType(at.Elt); t.k == "elem" {
-							sc.needZero = true
-							fn.zeroType = t.name
+							sc.addZero(t.name)
 						}
 					}
 				}
 			}
 		case *ast.ValueSpec:
 			if v.Type != nil && len(v.Values) == 0 {
-				if t := c.goType(v.Type); t.k == "elem" {
-					sc.needZero = true
-					fn.zeroType = t.name
-				}
+				sc.addZero(zeroNeeds(c.goType(v.Type))...)
 			}
+		case *ast.CompositeLit:
+			// fields left out of a struct literal are zero
+			if t := c.structTypeOf(v.Type); t != nil {
+				sc.addZero(c.litZeroNeeds(v, t)...)
+			}
+		case *ast.IndexExpr:
+			// m[k] of an absent key is the zero value
+			sc.addZero(c.mapIndexZeroNeeds(v, fieldTypes, isRecvIdent)...)
 		}
 		return true
 	})
-	if sc.needZero && fn.zeroType == "" {
-		for n := range c.elemT {
-			if c.elemT[n].k == "elem" {
-				fn.zeroType = n
-			}
-		}
-	}
 
 	// ---- variables of the signature
 	for _, f := range fieldNames {
 		if !(sc.fieldsUsed[f] || sc.fieldsMut[f]) || fieldFuncNoRes[f] {
 			continue
 		}
-		v := c.newVar(fn.recvVar+"_"+f, c.goType(fieldTypes[f]), "field")
+		var ft *fnType
+		if o := c.objs[f]; o != nil {
+			ft = o.typ
+		} else {
+			ft = c.goType(fieldTypes[f])
+		}
+		v := c.newVar(fn.recvVar+"_"+f, ft, "field")
 		c.fields[f] = v
 		fn.fields = append(fn.fields, f)
 		if sc.fieldsMut[f] {
@@ -283,9 +357,20 @@ func (c *fnCtx) function() {
 	}
 	for _, e := range needExtras {
 		c.extra(e[0], e[1])
+		c.typeKnownExtra(e[0])
 	}
-	if sc.needZero {
-		c.zero = c.newVar("zero_"+fn.zeroType, c.elemT[fn.zeroType], "zero")
+	for _, z := range sc.zeros {
+		zt := c.elemT[z]
+		if zt == nil {
+			zt = &fnType{k: "elem", name: z}
+		}
+		v := c.newVar("zero_"+z, zt, "zero")
+		c.zeros[z] = v
+		if c.zero == nil {
+			c.zero = v
+			fn.zeroType = z
+		}
+		fn.zeroTypes = append(fn.zeroTypes, z)
 		fn.needZero = true
 	}
 	for _, l := range sc.logs {
@@ -346,7 +431,17 @@ func (c *fnCtx) function() {
 		}
 		return c.retTerm(nil)
 	}
-	inner := c.stmts(fd.Body.List, end)
+	for _, t := range fn.results {
+		if t.k == "map" || t.k == "obj" {
+			c.lostAt(fd, "result of type %s (aliasing)", t.k)
+		}
+	}
+	for _, p := range fn.params {
+		if p.v != nil && (p.v.typ.k == "map" || p.v.typ.k == "obj") {
+			c.lostAt(fd, "parameter %s of type %s (aliasing)", p.goName, p.v.typ.k)
+		}
+	}
+	inner := c.stmts(c.body.List, end)
 	// named results and logs start at their zero values
 	body = inner
 	for i := len(fn.logs) - 1; i >= 0; i-- {
@@ -369,10 +464,17 @@ func (c *fnCtx) zeroOf(t *fnType, at ast.Node) string {
 	case "string", "slice":
 		return "[]"
 	case "elem":
-		if c.zero == nil {
+		z := c.zeros[t.name]
+		if z == nil {
 			c.lostAt(at, "zero value of %s here", t.name)
 		}
-		return c.zero.name
+		return z.name
+	case "struct":
+		s := "mk_" + t.name
+		for _, ft := range structFieldTypes(t) {
+			s += " " + paren(c.zeroOf(ft, at))
+		}
+		return "(" + s + ")"
 	}
 	c.lostAt(at, "zero value of type %s", t.k)
 	return ""
@@ -586,10 +688,15 @@ func (t *fnType) mentionsT(set map[string]bool) {
 	switch t.k {
 	case "elem":
 		set[t.name] = true
-	case "raw":
+	case "raw", "struct":
 		for _, p := range t.params {
 			p.mentionsT(set)
 		}
+	case "obj":
+		set[t.name] = true
+	case "map":
+		t.key.mentionsT(set)
+		t.elem.mentionsT(set)
 	case "slice":
 		if t.elem.k != "slice" { // a slice of slices is a list of views
 			t.elem.mentionsT(set)
@@ -609,6 +716,14 @@ func varType(v *fnVar) string {
 		return "list (" + tupleType(v.typ.elem.params) + ")"
 	}
 	return v.typ.coq()
+}
+
+// prodType: the type of v as a component of a product (function types parenthesised)
+func prodType(v *fnVar) string {
+	if v.typ.k == "func" {
+		return "(" + varType(v) + ")"
+	}
+	return varType(v)
 }
 
 func binders(vs []*fnVar) string {
@@ -639,8 +754,8 @@ func (c *fnCtx) sigVars() []*fnVar {
 	for _, e := range c.fn.extras {
 		vs = append(vs, c.extras[e.key])
 	}
-	if c.zero != nil {
-		vs = append(vs, c.zero)
+	for _, z := range c.fn.zeroTypes {
+		vs = append(vs, c.zeros[z])
 	}
 	return vs
 }
@@ -666,10 +781,13 @@ func (c *fnCtx) retType() string {
 	var ps []string
 	for _, t := range c.fn.results {
 		s := t.coq()
+		if t.k == "func" {
+			s = "(" + s + ")"
+		}
 		ps = append(ps, s)
 	}
 	for _, v := range c.retVars() {
-		ps = append(ps, varType(v))
+		ps = append(ps, prodType(v))
 	}
 	if len(ps) == 0 {
 		return "unit"
@@ -746,6 +864,7 @@ func (c *fnCtx) rootVar(e ast.Expr) *fnVar {
 		if c.isRecv(v.X) {
 			return c.fields[v.Sel.Name]
 		}
+		return c.rootVar(v.X) // x.f of a struct-valued variable
 	}
 	return nil
 }
@@ -791,8 +910,21 @@ func (c *fnCtx) effects(nodes ...ast.Node) effSet {
 				}
 			case *ast.ValueSpec:
 				if v.Type != nil && len(v.Values) == 0 && c.zero != nil {
-					if t := c.goType(v.Type); t.k == "elem" {
-						rd(c.zero)
+					for _, z := range zeroNeeds(c.goType(v.Type)) {
+						rd(c.zeros[z])
+					}
+				}
+			case *ast.CompositeLit:
+				if t := c.structTypeOf(v.Type); t != nil {
+					for _, z := range c.litZeroNeeds(v, t) {
+						rd(c.zeros[z])
+					}
+				}
+			case *ast.IndexExpr:
+				if x := c.rootVar(v.X); x != nil && x.typ.k == "map" {
+					rd(c.mapEqbVar(x.typ))
+					for _, z := range zeroNeeds(x.typ.elem) {
+						rd(c.zeros[z])
 					}
 				}
 			case *ast.Ident:
@@ -814,6 +946,22 @@ func (c *fnCtx) effects(nodes ...ast.Node) effSet {
 				if id, ok := v.Fun.(*ast.Ident); ok && id.Name == "append" && id.Obj == nil {
 					rd(c.extras["append"])
 				}
+				if id, ok := v.Fun.(*ast.Ident); ok && id.Name == "delete" && id.Obj == nil && len(v.Args) == 2 {
+					if x := c.rootVar(v.Args[0]); x != nil {
+						wr(x)
+						rd(x)
+						rd(c.mapEqbVar(x.typ))
+					}
+				}
+				if fv, m := c.objCallOf(v); fv != nil {
+					rd(c.extras["obj:"+c.objOf(fv).field+"."+m])
+					rd(fv)
+					wr(fv)
+					for _, w := range c.objOf(fv).writes {
+						rd(c.fields[w])
+						wr(c.fields[w])
+					}
+				}
 				if cal := c.g.calleeOf(c.fn, v); cal != nil {
 					for _, e := range cal.extras {
 						rd(c.extras[e.key])
@@ -832,8 +980,8 @@ func (c *fnCtx) effects(nodes ...ast.Node) effSet {
 							wr(c.rootVar(v.Args[i]))
 						}
 					}
-					if cal.needZero {
-						rd(c.zero)
+					for _, z := range cal.zeroTypes {
+						rd(c.zeros[z])
 					}
 				} else if l := c.loggedCall(v); l != nil {
 					wr(l)
@@ -985,8 +1133,15 @@ func (c *fnCtx) expr(e ast.Expr, pre *[]fnBind) (string, *fnType) {
 	case *ast.SelectorExpr:
 		if c.isRecv(v.X) {
 			if f, ok := c.fields[v.Sel.Name]; ok {
+				if f.typ.k == "obj" {
+					c.lostAt(v, "object field %s used as a value (only its methods can be called)", src(v))
+				}
 				return f.name, f.typ
 			}
+			c.lostAt(v, "selector %s", src(v))
+		}
+		if s, t := c.structSelect(v, pre); t != nil {
+			return s, t
 		}
 		c.lostAt(v, "selector %s", src(v))
 	case *ast.UnaryExpr:
@@ -1010,6 +1165,11 @@ func (c *fnCtx) expr(e ast.Expr, pre *[]fnBind) (string, *fnType) {
 		return c.binary(v, pre)
 	case *ast.IndexExpr:
 		x, t := c.expr(v.X, pre)
+		if t.k == "map" {
+			// m[k], one result: the zero value for an absent key
+			k, _ := c.expr(v.Index, pre)
+			return "(go_map_get1 " + c.mapEqb(t, v) + " " + paren(c.zeroOf(t.elem, v)) + " " + paren(x) + " " + paren(k) + ")", t.elem
+		}
 		i, it := c.expr(v.Index, pre)
 		if !it.isNum() {
 			c.lostAt(v, "index of type %s", it.k)
@@ -1069,6 +1229,9 @@ func (c *fnCtx) expr(e ast.Expr, pre *[]fnBind) (string, *fnType) {
 				}
 			}
 			return "[" + strings.Join(xs, "; ") + "]", t
+		}
+		if t.k == "struct" {
+			return c.structLit(v, t, pre), t
 		}
 		c.lostAt(v, "composite literal %s", src(v.Type))
 	}
